@@ -44,8 +44,8 @@ namespace occa {
     kernelRing.addRef(ker);
   }
 
-  void modeKernel_t::removeKernelRef(kernel *ker) {
-    kernelRing.removeRef(ker);
+  bool modeKernel_t::removeKernelRef(kernel *ker) {
+    return kernelRing.removeRef(ker);
   }
 
   bool modeKernel_t::needsFree() const {
